@@ -89,6 +89,13 @@ def run(O, P):
         rng = random.Random("%s/c01x/%d" % (O.seed, i))
         cfg = F.config_variants(rng) if rng.random() < 0.25 else vlib.default_config()
         cs.append({"id": "c01x-%d" % i, "config": cfg, "calls": [{"code": execgen.program("%s/c01" % O.seed, i), "file": "exec.js"}], "opts": {}})
+    # every compound-assignment target of the generator, deterministically (which ones a seed draws must not decide
+    # whether a key evaluated twice or an object read late is seen)
+    for ti, tgt in enumerate(execgen.TARGETS):
+        for ri, rhs in enumerate(["str", "f()", "a + b"]):
+            body = "try { RES.push(%s += %s); RES.push(%s); } catch (e) { RES.push('T:' + e.constructor.name); }" % (tgt, rhs, "1")
+            cs.append({"id": "c01tgt-%d-%d" % (ti, ri), "config": vlib.default_config(),
+                       "calls": [{"code": "var RES = [];\nfunction main() {\n  " + body + "\n  return RES;\n}\n", "file": "exec.js"}], "opts": {}})
     # `eval` as a method "allowed without callee" (the tracer lists it): a bare call of the IDENTIFIER eval is a direct eval, which
     # sees the local scope; called through anything else it is an indirect one
     evalcfg = vlib.default_config()
